@@ -22,7 +22,7 @@ CONSTANTS
   InsSet <- InsSmall
   MinEdits = 0
   Randomised = FALSE
-  DumpMod = 5
+  DumpMod = 23
   NRepl = 17
   RichOnly = TRUE
   NeedStruct = FALSE
